@@ -130,7 +130,10 @@ HARNESSES = [
                    dict(Q, pre='if (n) ', post='x=1', k=1, tail_gap=False),
                    dict(Q, pre='x=1 ', post='return x', k=1, tail_gap=False),
                    dict(Q, pre='if (n) x=1 else ', post='y=2', k=1,
-                        tail_gap=False)],
+                        tail_gap=False),
+                   dict(Q, pre='if (a) if (b) c=1 ', post='\nd=2\n', k=1),
+                   dict(Q, pre='if (a) ', post=' if (b) c=1 else e=3\nd=2\n',
+                        k=1)],
             thorough=[dict(Q, pre=a, post=b, k=2, _budget=1800)
                       for a, b in CONTEXTS] +
                      [dict(Q, pre=a, post=b, k=3, _budget=3000)
